@@ -890,8 +890,9 @@ class Piece:
         self.unit.loopsigs[lkey] = lsig
         want_sig = self.unit.baseline_loopsigs.get(lkey)
         def _same_but_more_exits(a, b):
-            # b is a with further `?` / return / break exits only (same loops, same kinds): the contract of a still fits b,
-            # and the new exits are checked against the function's postconditions like any other
+            # the loops are the same ones (kind, value-yielding or not, nesting, `continue`s); only the exits out of their bodies
+            # (`?`, return, break) differ: the invariant at the loop head still means what it meant, and every path through the
+            # body - old or new - is checked against it and against the function's postconditions
             pa, pb = a.split("|"), b.split("|")
             if len(pa) != len(pb):
                 return False
@@ -900,14 +901,8 @@ class Piece:
                 hy, _, jy = y.partition(":")
                 if hx != hy:
                     return False
-                lx, ly = [t for t in jx.split(",") if t], [t for t in jy.split(",") if t]
-                it_ = iter(ly)
-                if not all(any(t == u for u in it_) for t in lx):   # lx must be a subsequence of ly
-                    return False
-                extra = list(ly)
-                for t in lx:
-                    extra.remove(t)
-                if any(t in ("loop", "for", "while", "continue") for t in extra):
+                keep = ("loop", "for", "while", "continue")
+                if [t for t in jx.split(",") if t in keep] != [t for t in jy.split(",") if t in keep]:
                     return False
             return True
         if want_sig is not None and want_sig != lsig and not getattr(fs, "shape_free", False) and not _same_but_more_exits(want_sig, lsig):
